@@ -571,7 +571,7 @@ Deviation(T, o, out, O) ==
             -> "ServicePortNameCollision"
       \* ... the call fails all the same, further down its interface list, with the outcome class met there
       [] o.op = "AddService" /\ out # "ok" /\ O = T /\ ValidName(o.name) /\ Named(T, NS, o.name) = {}
-         /\ AddService(T, o.name, o.nstype, o.ifs, o.site, Fn(o.rp)).out = TErr
+         /\ AddService(T, o.name, o.nstype, o.ifs, o.site, Fn(o.rp)).out = TErr /\ out # TErr
          /\ out = FailsAsImpl([T EXCEPT !.el = Upd(T.el, SvcPath(o.name), SvcEl(o.name, o.nstype, o.site, Fn(o.rp)))], SvcPath(o.name), o.nstype, o.ifs)
             -> "ServicePortNameCollision"
       [] o.op = "Validate" /\ out = "ok" /\ Valid(T) /\ O # Inferred(T)
